@@ -21,7 +21,7 @@ def main(tier, replay=None):
     chk = vlib.Check(PID, tier, "model_checking")
     rng = chk.rng
     quick = tier == "quick"
-    harness, edges = setup(chk, tier, ["tls"])
+    harness, edges = setup(chk, tier, ["tls", "noflush"])
     if replay:
         return runner.replay_file(chk, harness, replay, "HeapTrace", "HeapTrace_reach.cfg", ())
     camp = runner.Campaign(chk, harness, "HeapTrace", "HeapTrace_reach.cfg", per_process=True)
